@@ -229,7 +229,7 @@ def units(tier):
     import functools
     U = []
     inl = [('emd/support.py', 'ensure_1d_with_singleton', {}), (SIFT, '_nsamples_warn', {})]
-    Ps = (1, 2, 3, 4) if tier == 'quick' else (1, 2, 3, 4, 5, 6, 7, 8)
+    Ps = (1, 2, 3, 4, 7, 8) if tier == 'quick' else (1, 2, 3, 4, 5, 6, 7, 8)
     for P in Ps:
         for zero in (False, True):
             if zero and P not in (1, 3, 4):
